@@ -519,13 +519,13 @@ class DslMixin:
         if name in ("forall", "exists"):
             hi = self.coerce(self.evv(node.args[0]), T.INT).term
             lam = self._lam(node, 1)
-            i = z3.Const(f"{lam.params[0]}!q{n}", z3.IntSort())
+            i = z3.Const(f"{lam.params[0]}${len(self.binders)}",z3.IntSort())
             return SV(self.quant(name, i, z3.And(0 <= i, i < hi), lam, SV(i, T.INT), line), T.BOOL)
         if name in ("forall_range", "exists_range"):
             lo = self.coerce(self.evv(node.args[0]), T.INT).term
             hi = self.coerce(self.evv(node.args[1]), T.INT).term
             lam = self._lam(node, 2)
-            i = z3.Const(f"{lam.params[0]}!q{n}", z3.IntSort())
+            i = z3.Const(f"{lam.params[0]}${len(self.binders)}",z3.IntSort())
             return SV(self.quant(name.split("_")[0], i, z3.And(lo <= i, i < hi), lam, SV(i, T.INT), line), T.BOOL)
         if name in ("forall_keys", "exists_key"):
             d = self.evv(node.args[0])
@@ -533,26 +533,26 @@ class DslMixin:
             if d.ty.kind == "opt":
                 d = self.coerce(d, d.ty.args[0], line)
             if d.ty.kind == "set":
-                k = z3.Const(f"{lam.params[0]}!q{n}", self.w.sort(d.ty.args[0]))
+                k = z3.Const(f"{lam.params[0]}${len(self.binders)}",self.w.sort(d.ty.args[0]))
                 g = z3.Select(d.term, k)
                 return SV(self.quant("forall" if name == "forall_keys" else "exists", k, g, lam, SV(k, d.ty.args[0]), line), T.BOOL)
             if d.ty.kind != "dict":
                 raise Unsupported(f"{name} on {d.ty}")
             if d.term is None:
                 return SV(z3.BoolVal(name == "forall_keys"), T.BOOL)
-            k = z3.Const(f"{lam.params[0]}!q{n}", self.w.sort(d.ty.args[0]))
+            k = z3.Const(f"{lam.params[0]}${len(self.binders)}",self.w.sort(d.ty.args[0]))
             _, has, _ = self.dct(d)
             g = z3.Select(has(d.term), k)
             return SV(self.quant("forall" if name == "forall_keys" else "exists", k, g, lam, SV(k, d.ty.args[0]), line), T.BOOL)
         if name == "forall_int":
             lam = self._lam(node, 0)
-            i = z3.Const(f"{lam.params[0]}!q{n}", z3.IntSort())
+            i = z3.Const(f"{lam.params[0]}${len(self.binders)}",z3.IntSort())
             return SV(self.quant("forall", i, None, lam, SV(i, T.INT), line), T.BOOL)
         if name in ("forall_of", "exists_of"):
             tn = ast.literal_eval(node.args[0])
             t = self.w.resolve_ann(ast.parse(tn, mode="eval").body, self.frames[-1].module)
             lam = self._lam(node, 1)
-            v = z3.Const(f"{lam.params[0]}!q{n}", self.w.sort(t))
+            v = z3.Const(f"{lam.params[0]}${len(self.binders)}",self.w.sort(t))
             return SV(self.quant(name.split("_")[0], v, None, lam, SV(v, t), line), T.BOOL)
         if name == "implies":
             a = self.truthy(self.ev(node.args[0]))
